@@ -1,4 +1,5 @@
 import LopdfModel.Model.Pages
+import LopdfModel.Model.Outlines
 import LopdfModel.Gen.Consts
 /-
   C17 — model of the bookmark / outline code, written from
@@ -12,9 +13,9 @@ import LopdfModel.Gen.Consts
   Key names, the `GoTo`/`Fit` names and the byte-order mark come from `Gen/Consts.lean`
   (regenerated from src/bookmarks.rs, src/toc.rs, src/outlines.rs).
 
-  Fuel: `outline_child`, `recursive_fix_pages` and `get_outlines` have NO guard in the Rust code
-  (a cyclic `bookmark_table` overflows the stack, a cyclic `Next`/`First` hangs — C13's finding),
-  so the model cannot be defined by well-founded recursion on a guard of the code.  The functions
+  Fuel: `outline_child` and `recursive_fix_pages` have NO guard in the Rust code (a cyclic
+  `bookmark_table` overflows the stack), so their model cannot be defined by well-founded recursion
+  on a guard of the code.  (`get_outlines` has a guard since bca5e67 and is modelled fuel-free.)  The functions
   below take fuel; `none`/`.fuel` is "did not finish".  The theorems quantify over all sufficient
   fuel and show sufficient fuel exists for every forest built through `add_bookmark`.
   Arithmetic is on `Nat`: the model assumes `max_id + 1 + 2·#bookmarks ≤ u32::MAX` and fewer than
@@ -264,159 +265,13 @@ def setOutlines (os : Objects) (cat : ObjId) (root : ObjId) : Objects :=
   | some d => (cat, .dict (d.set CAT_OUTLINES (oref root))) :: os
   | none => os
 
-/-! ## Readers -/
+/-! ## Readers
 
-/-- `Document::get_dict_in_dict` -/
-def getDictInDict (os : Objects) (node : Dict) (key : Bytes) : Option Dict :=
-  match node.get key with
-  | some (.ref a b) => getDictionary os (a, b)
-  | some (.dict d) => some d
-  | _ => none
-
-inductive Outline where
-  | dest (title page typ : Obj)
-  | sub (items : List Outline)
-  deriving Repr, Inhabited
-
-/-- result of `get_outline` as far as `get_outlines` looks at it: an item, nothing
-(`Ok(None)` and every `Err` are dropped alike), or a panic (`obj_array[1]`). -/
-inductive GO where
-  | item (o : Outline)
-  | skip
-  | panic
-  deriving Repr
-
-/-- `build_outline_result` on a non-reference destination (named destinations: empty table) -/
-def borDirect (dest title : Obj) : GO :=
-  match dest with
-  | .arr (p :: ty :: _) => .item (.dest title p ty)
-  | .arr _ => .panic
-  | .str _ _ => .skip
-  | _ => .skip
-
-/-- `Document::build_outline_result` (no `Dests` name tree in the catalog) -/
-def buildOutlineResult (os : Objects) (dest title : Obj) : GO :=
-  match dest with
-  | .ref a b =>
-    match getObject os (a, b) with
-    | none => .skip
-    | some o => match o with
-      | .ref _ _ => .skip
-      | o => borDirect o title
-  | d => borDirect d title
-
-/-- `Document::get_outline` -/
-def getOutline (os : Objects) (node : Dict) : GO :=
-  match getDictInDict os node RD_A with
-  | none =>
-    match node.get RD_DEST, node.get RD_TITLE with
-    | some d, some t => buildOutlineResult os d t
-    | _, _ => .skip
-  | some action =>
-    match (action.get RD_S).bind Obj.asName with
-    | none => .skip
-    | some cmd =>
-      if cmd ≠ RD_GOTO ∧ cmd ≠ RD_GOTOR then .skip
-      else
-        match node.get RD_TITLE with
-        | none => .skip
-        | some (.ref a b) =>
-          match action.get RD_D, getObject os (a, b) with
-          | some d, some t => buildOutlineResult os d t
-          | _, _ => .skip
-        | some (.str s f) =>
-          match action.get RD_D with
-          | some d => buildOutlineResult os d (.str s f)
-          | none => .skip
-        | some _ => .skip
-
-inductive WRes where
-  | ok (l : List Outline)
-  | err
-  | panic
-  | fuel
-  deriving Repr
-
-/-- `get_outlines(Some(node), Some(outlines))`: the `loop` over `Next` with the recursion
-through `First`. -/
-def walk (os : Objects) : Nat → Dict → List Outline → WRes
-  | 0, _, _ => .fuel
-  | f + 1, node, acc =>
-    match getOutline os node with
-    | .panic => .panic
-    | r =>
-      let acc1 := match r with
-        | .item o => acc ++ [o]
-        | _ => acc
-      let afterFirst : WRes :=
-        match node.get RD_FIRST with
-        | none => .ok acc1
-        | some first =>
-          let sub : Option Dict := match first with
-            | .dict d => some d
-            | .ref a b => getDictionary os (a, b)
-            | _ => none
-          match sub with
-          | none => .err
-          | some d2 =>
-            match walk os f d2 [] with
-            | .ok subs => .ok (if subs.isEmpty then acc1 else acc1 ++ [.sub subs])
-            | e => e
-      match afterFirst with
-      | .ok acc2 =>
-        match getDictInDict os node RD_NEXT with
-        | some n => walk os f n acc2
-        | none => .ok acc2
-      | e => e
-
-/-- `Document::catalog` -/
-def catalogOf (trailer : Dict) (os : Objects) : Option Dict :=
-  ((trailer.get ROOT).bind Obj.asRef).bind (getDictionary os)
-
-/-- `get_outlines(None, None, ..)`. `unsupported` when the catalog has a `Dests` name tree
-(named destinations are outside this model). -/
-inductive TopRes where
-  | res (r : WRes)
-  | unsupported
-  deriving Repr
-
-def getOutlines (fuel : Nat) (trailer : Dict) (os : Objects) : TopRes :=
-  match catalogOf trailer os with
-  | none => .res .err
-  | some cat =>
-    match getDictInDict os cat RD_OUTLINES with
-    | none => .res .err
-    | some outl =>
-      let start := match getDictInDict os outl RD_FIRST with
-        | some f => f
-        | none => outl
-      let hasDests := (getDictInDict os cat RD_DESTS).isSome ||
-        (match getDictInDict os cat RD_NAMES with
-         | some names => (getDictInDict os names RD_DESTS).isSome
-         | none => false)
-      if hasDests then .unsupported else .res (walk os fuel start [])
-
-/-- `IndexMap::insert` on the `OutlinePageIds` map (value = page id, level) -/
-def idsInsert (m : List (Bytes × ObjId × Nat)) (k : Bytes) (v : ObjId × Nat) : List (Bytes × ObjId × Nat) :=
-  match m with
-  | [] => [(k, v)]
-  | (k', v') :: r => if k' = k then (k, v) :: r else (k', v') :: idsInsert r k v
-
-/- `setup_outline_page_ids`: `none` = `Err` (title not a string / page not a reference) -/
-mutual
-def setupIds (lvl : Nat) : Outline → List (Bytes × ObjId × Nat) → Option (List (Bytes × ObjId × Nat))
-  | .dest title page _, acc =>
-    match title, page with
-    | .str s _, .ref a b => some (idsInsert acc s ((a, b), lvl))
-    | _, _ => none
-  | .sub items, acc => setupIdsL (lvl + 1) items acc
-def setupIdsL (lvl : Nat) : List Outline → List (Bytes × ObjId × Nat) → Option (List (Bytes × ObjId × Nat))
-  | [], acc => some acc
-  | o :: rest, acc =>
-    match setupIds lvl o acc with
-    | none => none
-    | some acc' => setupIdsL lvl rest acc'
-end
+`get_outline`, `build_outline_result`, `get_outlines` (the walk over `First`/`Next` guarded by ONE
+`seen` set threaded through the recursion, lopdf bca5e67), `get_named_destinations` and
+`setup_outline_page_ids` are modelled once, fuel-free, in `Model/Outlines.lean` (namespace
+`Lopdf.Q13`, property C13).  `get_toc` below is that walk followed by the title decoding and the
+page-number map of src/toc.rs.  No fuel: termination is the walker's own guard. -/
 
 /-- `setup_page_id_to_num` + lookup: a later page number overrides (IndexMap insert). -/
 def pageNumIn (pages : List ObjId) (start : Nat) (p : ObjId) : Option Nat :=
@@ -440,8 +295,7 @@ inductive TocRes where
   | ok (toc : List TocEntry) (nErrors : Nat)
   | err
   | panic
-  | fuel
-  | unsupported
+  | unsupported        -- a title that is neither ASCII nor BOM-prefixed (`from_utf8_lossy`), outside the model
   deriving Repr
 
 def tocEntries (trailer : Dict) (os : Objects) :
@@ -457,14 +311,12 @@ def tocEntries (trailer : Dict) (os : Objects) :
       | .unsupported => none
 
 /-- `Document::get_toc` -/
-def getToc (fuel : Nat) (trailer : Dict) (os : Objects) : TocRes :=
-  match getOutlines fuel trailer os with
-  | .unsupported => .unsupported
-  | .res .err => .err
-  | .res .panic => .panic
-  | .res .fuel => .fuel
-  | .res (.ok outlines) =>
-    match setupIdsL 1 outlines [] with
+def getToc (trailer : Dict) (os : Objects) : TocRes :=
+  match Q13.getOutlines trailer os with
+  | .err _ => .err
+  | .panic _ => .panic
+  | .ok (outlines, _) =>
+    match Q13.tocIdsList 1 outlines [] with
     | none => .err
     | some ids =>
       match tocEntries trailer os ids [] 0 with
